@@ -38,7 +38,9 @@ class UnionMonitor:
                 return
             for field in cls.__fields__:
                 try:
-                    want = field.type._read(io.BytesIO(buf))
+                    stream = io.BytesIO(buf)
+                    stream.seek(field.offset or 0)  # members may be given an explicit offset through add_field()
+                    want = field.type._read(stream)
                     have = getattr(u, field._name)
                     a, b = simple(want), simple(have)
                 except Exception:  # noqa: BLE001
